@@ -76,5 +76,6 @@ func TestCheck(t *testing.T) {
 const rule = "match: 1-3 matcher lists x label sets over small name/value/pattern alphabets, regexp oracle anchored by the harness; " +
 	"site: one matcher through NewMatcher / Matchers / route (matchers, match, match_re, JSON config) / silence compile / inhibit rule (source, target, legacy maps) / API filter / v1 JSON; " +
 	"print: matcher lists over an alphabet rich in quotes, backslashes, newlines, braces, commas, operators, blanks, NUL, multi-byte and invalid UTF-8 -> String() -> every parser; " +
+	"list stress: 2-4 matcher lists whose non-last values end in one or two backslashes or carry a quote / escaped quote / escaped backslash right before the separating comma, printed then parsed in every mode, plus raw lists of the same shapes (histogram classic_split_stress); " +
 	"parse: raw inputs (grammar-directed + mutated seeds) through labels.ParseMatcher(s), parse.Matcher(s), compat.Matcher(s) in classic/utf8-strict/fallback mode; " +
 	"non-trivial = at least one regex matcher or non-ASCII/escaped byte or a parser disagreement/error; distinct by full case text"
